@@ -58,7 +58,7 @@ def geometry_script(wiring: str, cols: int, rows: int) -> str:
         for clear in (True, False):
             inner += reset() + [f'lcd.line(r, t, align="{align}", clear_row={clear})', f'mon.write("l{k}")']
             k += 1
-    if rows >= 2:
+    if rows >= 1:  # (on a one-row display the bottom text of message() has nowhere to go: the host skips it)
         for ta in ALIGNS:
             for ba in ALIGNS:
                 for clear in (True, False):
